@@ -137,6 +137,7 @@ def run(rep):
         # and TyModule::type_check uses only this accessor to read `typed` cache entries
     rep.floor("R3-reuse-behind-predicate", 2, n3)
     rule_commit_discipline(rep)
+    rule_source_buffer(rep)
 
 
 def _behind_true_edge(f, blk, pred, call_t):
@@ -187,4 +188,42 @@ def rule_commit_discipline(rep):
         ok_prog = any(pat.startswith("Some") for sc, pat in arms)
         rep.ob("R5-commit-only-after-a-successful-compilation", f"qe().commit()#{ci + 1}", ok_parse and ok_prog, SS, c["l"],
                f"commit() must sit in the Ok arm of `match parse_project(..)` and the Some arm of the program lookup; enclosing arms: {arms}")
+
+
+def rule_source_buffer(rep):
+    """R6: the engines outlive a compilation, and with them the text buffers of the source engine. parse_module_tree re-reads a
+    file and asks get_or_create_source_buffer for the buffer to parse; the buffer kept from the previous compilation may only be
+    handed out when its text equals the text just read. The decision must therefore be a comparison of the two `text`s themselves
+    -- a proxy (length, line table, hash of something else) lets an edit that keeps the proxy go unseen by every later stage."""
+    F = mir.Facts(["sway_types"])
+    g = F.fn("sway_types::source_engine::SourceEngine::get_or_create_source_buffer")
+
+    def is_text(o):
+        return any(isinstance(p, list) and p[0] == "f" and p[3] == "text" for p in o.get("p", []))
+    defs = mir.defs_of(g)
+
+    def text_operand(o, depth=4):
+        while depth > 0 and "l" in o:
+            depth -= 1
+            if is_text(o):
+                return True
+            ds = defs.get(o["l"], [])
+            if len(ds) != 1:
+                return False
+            _, _, k, srcs, node = ds[0]
+            if k in ("use", "ref") and srcs:
+                o = srcs[0]
+                continue
+            return False
+        return False
+    cmps = [(bi, t) for bi, t in g.calls() if re.search(r"PartialEq(<.*>)?>::(eq|ne)$", t.get("rn") or t.get("fp", "")) and len(t.get("a", [])) == 2 and
+            all(text_operand(a) for a in t["a"])]
+    # the replacement `*existing = source` : a statement assigning through the get_mut result; and the hand-out of the existing buffer
+    guards = panics.switch_guards(g)
+    guarded = [1 for sbi, call, true_s, false_s in guards if any(call is t for _, t in cmps)]
+    rep.ob("R6-kept-source-buffer-has-the-same-text", g.name, bool(cmps) and bool(guarded), g.file, cmps[0][1]["ln"] if cmps else g.lo,
+           "the cached text buffer of a file is kept or replaced without comparing its text with the text just read: an edit that preserves whatever is "
+           "compared instead (length, line starts) is parsed, type-checked and reported from the old text")
+    other = [(bi, t) for bi, t in g.calls() if re.search(r"PartialEq(<.*>)?>::(eq|ne)$", t.get("rn") or t.get("fp", "")) and not any(t is c for _, c in cmps)]
+    rep.note(f"R6: {len(cmps)} text comparison(s), {len(other)} other comparison(s) in get_or_create_source_buffer")
 
